@@ -214,6 +214,8 @@ def bounded(check, tier, seed):
                 if A.edit_reported(f):
                     s.contract_case(A.shared_atts, dict(self=f), key=("shared", combo, empties, "after the caller edited the reported dict"))
                 s.contract_case(A.copy_with_new_str, dict(self=f, new_str="zz"), key=("cwns", combo, empties))
+                if n_ <= 2:
+                    s.contract_case(A.copy_with_new_str, dict(self=f, new_str="ok \x1b[31mFAILED\x1b[0m"), key=("cwns_esc", combo, empties))
     s.done()
     from bounded.derived import derived_values
     nd = 4000 if tier == "thorough" else 500
